@@ -38,7 +38,8 @@ func plainProblem(v any, path string, onPath map[uintptr]bool, depth int) string
 		onPath[ptr] = true
 		defer delete(onPath, ptr)
 		for k, x := range t {
-			if k == "<-" {
+			if k == "<-" || strings.HasSuffix(k, ".<-") {
+				// (the second form: a fused row's marker blended in under the item's prefix — no generated document has such a key)
 				return path + ": navigation key `<-` in result"
 			}
 			if p := plainProblem(x, path+"."+k, onPath, depth+1); p != "" {
@@ -351,7 +352,7 @@ func containsNonFinite(v any) bool {
 
 func init() {
 	register(propC12{engineProp{id: "C12", checkFn: "EngineRun.check_c12", gen: genC12,
-		rule: "a generated matrix of ~30 expression forms (columns, paths, literals, arithmetic incl. NULL operands, unary, comparisons, LIKE/IN/BETWEEN/IS, boolean connectives, CASE returning a column / arithmetic / literal, row-scoped subquery, EXISTS, plain and ASYNC user-function calls) x 12 clause positions (select item, next to *, CASE branch, function argument, derived-table column, CTE column, union branch, DISTINCT+ORDER BY, group item, join output, WHERE / WHERE operand, IN-list element); each result is walked by Go type (anything but nil|bool|number|string|[]any|map is a leak), checked for `<-` keys and reference cycles, marshalled with encoding/json, compared with the model, and the query is executed twice on equal inputs (identical sequence; joins: equal multiset); every case is non-trivial"}})
+		rule: "a generated matrix of ~30 expression forms (columns, paths, literals, arithmetic incl. NULL operands, unary, comparisons, LIKE/IN/BETWEEN/IS, boolean connectives, CASE returning a column / arithmetic / literal, row-scoped subquery, EXISTS, plain and ASYNC user-function calls) x 12 clause positions (select item, next to *, CASE branch, function argument, derived-table column, CTE column, union branch, DISTINCT+ORDER BY, group item, join output, WHERE / WHERE operand, IN-list element); each result is walked by Go type (anything but nil|bool|number|string|[]any|map is a leak), checked for `<-` keys and reference cycles, marshalled with encoding/json, compared with the model, and the query is executed twice on equal inputs (identical sequence; joins: equal multiset); every case is non-trivial; further streams (r4_c12.go): value tuples of 2-4 members drawn from columns of every type, arithmetic that is NULL on some rows only (NULL / missing operands), literals of every type and unary minus, as select item / function argument / CASE branch / derived-table column (out of model: judged by the type walk, JSON round trip and second run); star projections over the backward reference `<-` itself (select-list subquery, derived table inside it, subquery of a query over a CTE, subquery inside a CTE body) with 0-3 common table expressions in scope, used or not (compared with the model)"}})
 }
 
 // ---------- ASYNC x nesting matrix (used by C12 itself and, as a stage, by C13 and C14) ----------
